@@ -4,4 +4,4 @@
             ({ let q = match req_query(rqctx.request) { Some(s) => s, None => ""@ };
                &&& (r is Ok) == (urlencoded_spec::<QueryType>(q) is Some)
                &&& r is Ok ==> r->Ok_0.inner == urlencoded_spec::<QueryType>(q)->Some_0 }), // @query_extractor_fails_only_on_undecodable_query
-            r is Err ==> status_of(r->Err_0) == 400, // @query_extractor_error_is_400
+            r is Err ==> is_client_code(status_of(r->Err_0)), // @query_extractor_error_is_400
